@@ -31,10 +31,13 @@ def make(cfg):
             if cfg.get("schedule") and k > 1:
                 # a scheduler changes lr / weight decay / momentum between steps: symbolic new values
                 g0 = run.opt.param_groups[0]
-                for key, hpk in (("lr", "lr"), ("weight_decay", "wd")):
+                sched = (("lr", "lr"), ("weight_decay", "wd")) + ((("momentum", "mom"),) if cfg.get("schedule") == "with-momentum" else ())
+                for key, hpk in sched:
                     nv = symx.hp(f"{hpk}_s{k}")
-                    if H.IS_SYM:
+                    if H.IS_SYM and not isinstance(nv, float) and nv.c is None:
                         symx.CTX.assume(nv.n >= 0)
+                        if hpk == "mom":
+                            symx.CTX.assume(nv.n < 1)
                     g0[key] = nv
                     run.eff = dict(run.eff)
                     run.eff[hpk] = nv
@@ -45,7 +48,10 @@ def make(cfg):
                 k_before = list(run.k)
             e = H.guarded_step(run)
             if e is not None:
-                symx.prove(f"step() does not raise ({type(e).__name__}: {str(e)[:80]})", False, run._sig("step-raised"))
+                mom0 = run.hp["mom"]
+                was_zero = (mom0 == 0.0) if isinstance(mom0, float) else (mom0.c is not None and mom0.c == 0)
+                cause = "momentum 0 at construction, set non-zero in param_groups later" if (was_zero and isinstance(e, KeyError) and "momentum" in str(e)) else "other"
+                symx.prove(f"step() does not raise ({type(e).__name__}: {str(e)[:80]})", False, run._sig("step-raised", cause=cause))
             run.ref_step(grads)
             if cfg.get("frame_checks"):
                 for i, sn in snaps.items():
@@ -101,8 +107,14 @@ def jobs_for(tier):
     add(params=[(3,), ()], mpd=2, graft="adam", pf=1, sps=2, T=2, fixed=dict(wd=0))
     # gradient presence and several parameters
     add(params=[(2, 2), (2,)], presence="symbolic", graft="adam", pf=1, sps=2, T=2, fixed=dict(wd=0, mom=0))
-    # scheduler changes lr / weight decay between steps
+    # several parameter groups with their own hyperparameters and step counters (a group leaving beta3 unset inherits the resolved top-level value)
+    add(params=[(2, 2), (2,)], groups=[[0], [1]], group_overrides=[{}, dict(lr="lr_g1", betas=["b1_g1", "b2_g1"], weight_decay="wd_g1")], graft="adam", nesterov=True,
+        bias_corr=True, decoupled=True, pf=1, sps=2, T=2, presence="symbolic", fixed=dict(mom=0), assume_generic=True)
+    add(params=[(2, 2), (3,)], groups=[[1], [0]], group_overrides=[dict(epsilon="eps_g0", momentum="mom_g0", beta3="b3_g0"), {}], graft="sgd", nesterov=False,
+        bias_corr=False, decoupled=False, pf=1, sps=1, T=2, fixed=dict(wd=0))
+    # scheduler changes lr / weight decay (/ momentum) between steps
     add(schedule=True, graft="sgd", nesterov=True, bias_corr=True, decoupled=True, T=2)
+    add(schedule="with-momentum", graft="adagrad", nesterov=True, bias_corr=True, decoupled=False, T=2)
     # dtype pairs (tags): casts happen, no mismatch error
     for pd, fd in (("float64", "float32"), ("bfloat16", "float32"), ("float32", "float64")):
         add(pdtype=pd, fdtype=fd, graft="adam", pf=1, sps=1, T=2, fixed=dict(wd=0, mom=0))
